@@ -1,7 +1,20 @@
 import PebblesVerif.Props.C06
+import PebblesVerif.Props.C06Flat
 open PebblesVerif
 #print axioms C06_route_char
 #print axioms C06_unique_owner
 #print axioms C06_root_once
 #print axioms C06_keyword
 #print axioms C06_root_batch_all_sent
+#print axioms C06_flat_mutation_plan
+#print axioms C06_flat_mutation_walk
+#print axioms C06_flat_mutation_calls
+#print axioms C06_flat_mutation_calls_explicit
+#print axioms C06_flat_mutation_fault
+#print axioms C06_flat_mutation_only_expected
+#print axioms C06_flat_mutation_calls_instance
+#print axioms C06_flat_mutation_not_serial
+#print axioms C06_flat_followup_plan
+#print axioms C06_flat_followup_is_query
+#print axioms C06_flat_followup_none
+#print axioms C06_flat_followup_is_query_instance
